@@ -309,6 +309,96 @@ m("cred-save-outside-lock", ["C18"],
 m("cred-wrong-mode", ["C18"],
   ("registry/remote/credentials/internal/ioutil/ioutil.go", "tempFile.Chmod(0600)", "tempFile.Chmod(0644)"))
 
+# ---- remote (C13-C15) ----
+m("remote-skip-verify-content-digest", ["C13"],
+  ("registry/remote/repository.go", """	if contentDigest != expected {
+		return fmt.Errorf(
+			"%s %q: invalid response; digest mismatch in %s: received %q when expecting %q",""", """	if contentDigest != expected && false {
+		return fmt.Errorf(
+			"%s %q: invalid response; digest mismatch in %s: received %q when expecting %q","""))
+m("remote-ignore-content-length-mismatch", ["C13"],
+  ("registry/remote/repository.go", """		if size := resp.ContentLength; size != -1 && size != target.Size {
+			return nil, fmt.Errorf("%s %q: mismatch Content-Length", resp.Request.Method, resp.Request.URL)
+		}
+		if err := verifyContentDigest(resp, target.Digest); err != nil {
+			return nil, err
+		}
+
+		// check server range request capability.""", """		if err := verifyContentDigest(resp, target.Digest); err != nil {
+			return nil, err
+		}
+
+		// check server range request capability."""))
+m("seek-wrong-range-arithmetic", ["C13"],
+  ("internal/httputil/seek.go", 'req.Header.Set("Range", fmt.Sprintf("bytes=%d-%d", offset, rsc.size-1))', 'req.Header.Set("Range", fmt.Sprintf("bytes=%d-%d", offset+1, rsc.size-1))'))
+m("url-extra-path-segment", ["C13"],
+  ("registry/remote/url.go", """		buildRepositoryBaseURL(plainHTTP, ref),
+		"blobs",
+		ref.Reference,""", """		buildRepositoryBaseURL(plainHTTP, ref),
+		"blobs", "sha256",
+		ref.Reference,"""))
+m("manifest-fetch-ignores-media-type", ["C13"],
+  ("registry/remote/repository.go", """	if mediaType != target.MediaType {
+		return nil, fmt.Errorf("%s %q: mismatch response Content-Type %q: expect %q", resp.Request.Method, resp.Request.URL, mediaType, target.MediaType)
+	}""", """	_ = mediaType"""))
+m("merge-complete-drops-pending", ["C14"],
+  ("internal/syncutil/merge.go", """	m.items = m.pending
+	m.status = m.pendingStatus""", """	m.items = nil
+	m.status = m.pendingStatus"""))
+m("referrers-skip-old-index-delete", ["C14"],
+  ("registry/remote/repository.go", """		if s.repo.SkipReferrersGC || oldIndexDesc == nil {
+			return nil
+		}""", """		if s.repo.SkipReferrersGC || oldIndexDesc == nil || true {
+			return nil
+		}"""))
+m("referrers-capability-without-cas", ["C14"],
+  ("registry/remote/repository.go", """	if swapped := atomic.CompareAndSwapInt32(&r.referrersState, referrersStateUnknown, state); !swapped {
+		if fact := r.loadReferrersState(); fact != state {""", """	atomic.StoreInt32(&r.referrersState, state)
+	if swapped := true; !swapped {
+		if fact := r.loadReferrersState(); fact != state {"""))
+m("referrers-no-merge-lost-update", ["C14"],
+  ("registry/remote/repository.go", """	merge, done := s.repo.referrersMergePool.Get(referrersTag)
+	defer done()
+	return merge.Do(change, prepare, update)""", """	if err := prepare(); err != nil {
+		return err
+	}
+	return update([]referrerChange{change})"""))
+m("referrers-apply-drops-annotations", ["C14"],
+  ("registry/remote/repository.go", """		subject = *manifest.Subject
+		desc.ArtifactType = manifest.ArtifactType
+		if desc.ArtifactType == "" {
+			desc.ArtifactType = manifest.Config.MediaType
+		}
+		desc.Annotations = manifest.Annotations""", """		subject = *manifest.Subject
+		desc.ArtifactType = manifest.ArtifactType
+		if desc.ArtifactType == "" {
+			desc.ArtifactType = manifest.Config.MediaType
+		}"""))
+m("tags-resend-last-every-page", ["C15"],
+  ("registry/remote/repository.go", """		url, err = r.tags(ctx, last, fn, url)
+		// clear `last` for subsequent pages
+		last = \"\"
+""", """		url, err = r.tags(ctx, last, fn, url)
+"""))
+m("tags-stop-after-first-page", ["C15"],
+  ("registry/remote/utils.go", """	link := resp.Header.Get("Link")
+	if link == "" {
+		return "", errNoLink
+	}""", """	link := resp.Header.Get("Link")
+	if link == "" || resp.Request.URL.Query().Get("last") != "" {
+		return "", errNoLink
+	}"""))
+m("limitreader-unbounded", ["C15"],
+  ("registry/remote/utils.go", """	return io.LimitReader(r, n)""", """	return io.LimitReader(r, n*1000)"""))
+m("referrers-skip-client-filter", ["C15"],
+  ("registry/remote/repository.go", """			referrers = filterReferrers(referrers, artifactType)
+		}
+	}""", """			_ = filterTypeArtifactType
+		}
+	}"""))
+m("oci-tags-ignore-last", ["C15"],
+  ("content/oci/readonlyoci.go", """		if last != "" && tag <= last {""", """		if last != "" && tag < last {"""))
+
 
 def sh(cmd, **kw):
     return subprocess.run(cmd, **kw)
@@ -335,6 +425,7 @@ def run_checks(props):
         env = dict(os.environ, VERIF_REPO=WT, VERIF_EVIDENCE_DIR="/tmp/verif-mut-evidence", VERIF_REPLAYS_DIR="/tmp/verif-mut-replays")
         t0 = time.time()
         r = sh([os.path.join(VERIF, "check"), p, "--budget", BUDGET], env=env, stdout=subprocess.PIPE, stderr=subprocess.STDOUT, text=True)
+        open("/tmp/verif-mut-last-%s.log" % p, "w").write(r.stdout)
         lines = [l for l in r.stdout.splitlines() if l.startswith("VIOLATION") or l.startswith("  class=")]
         res[p] = (r.returncode, lines[:2], time.time() - t0, r.stdout[-600:] if r.returncode == 2 else "")
     return res
